@@ -701,7 +701,7 @@ pub mod fasta {
                 && final(self).buf_pos.start == old(self).buf_pos.start
                 && old(self).b().len() <= final(self).b().len() && final(self).b().subrange(0, old(self).b().len() as int) == old(self).b(),
             [C09|fasta.resume.capacity_monotone] final(self).buf_reader.cap() >= old(self).buf_reader.cap(),
-            [C09|fasta.resume.growth_only_when_record_does_not_fit] make_room && old(self).clean()
+            [C03,C09|fasta.resume.growth_only_when_record_does_not_fit] make_room && old(self).clean()
                 && final(self).buf_reader.cap() > old(self).buf_reader.cap() ==>
                 no_bnd(final(self).f(), final(self).gpos(), final(self).gpos() + old(self).buf_reader.cap() - 1),
 //@loop 0 kw=loop
@@ -718,7 +718,7 @@ pub mod fasta {
                     && (make_room && old(self).clean()
                         && self.buf_reader.cap() > old(self).buf_reader.cap() ==>
                         no_bnd(self.f(), self.gpos(), self.gpos() + old(self).buf_reader.cap() - 1)),
-                [C09|fasta.resume.inv.full_when_clean] self.clean() ==> self.b().len() == self.buf_reader.cap() && at_end(self.b(), self.search_pos as int),
+                [C03,C09|fasta.resume.inv.full_when_clean] self.clean() ==> self.b().len() == self.buf_reader.cap() && at_end(self.b(), self.search_pos as int),
             decreases
                 (if self.base() + self.b().len() <= self.f().len() { self.f().len() - self.base() - self.b().len() } else { 0 }),
 //@at depth=3 kw=self nth=0 expect="self\.grow\(\)" unique=1
@@ -770,7 +770,7 @@ pub mod fasta {
                     && (old(self).fresh() ==> first_nonblank(old(self).f(), 0) == old(self).f().len()))),
             [C01,C04,C20|fasta.next.end_is_sticky] old(self).state == State::Finished ==> r is None,
             [C09|fasta.next.capacity_monotone] final(self).buf_reader.cap() >= old(self).buf_reader.cap(),
-            [C09|fasta.next.growth_only_when_record_does_not_fit] old(self).clean() && final(self).buf_reader.cap() > old(self).buf_reader.cap() ==>
+            [C03,C09|fasta.next.growth_only_when_record_does_not_fit] old(self).clean() && final(self).buf_reader.cap() > old(self).buf_reader.cap() ==>
                 fa_nofit(old(self).f(), old(self).cursor(), old(self).buf_reader.cap() as int),
             [C14|fasta.next.source_errors_are_not_swallowed] (r is None || r matches Some(Ok(_))) ==> final(self).buf_reader.errs() == old(self).buf_reader.errs(),
             [C01,C03,C04,C06,C12|fasta.next.record] r matches Some(Ok(rec)) ==> final(self).buf_reader.errs() == old(self).buf_reader.errs()
@@ -840,9 +840,9 @@ pub mod fasta {
             old(self).state == State::Finished ==> old(self).position.byte == old(self).gpos() && old(self).position.byte <= old(self).f().len() + 1,
         ensures
             [C01,C03,C04,C05,C06|fasta.seek.frame] final(self).f() == old(self).f() && final(self).buf_policy == old(self).buf_policy,
-            [C04,C05,C06|fasta.seek.positioned] r is Ok ==> final(self).wf() && final(self).state == State::Positioned
-                && final(self).position == *to && final(self).gpos() == to.byte && final(self).cursor() == to.byte
-                && final(self).buf_reader.errs() == old(self).buf_reader.errs(),
+            [C03,C04,C05,C06|fasta.seek.positioned] r is Ok ==> final(self).wf() && final(self).state == State::Positioned
+                && final(self).position == *to && final(self).gpos() == to.byte && final(self).cursor() == to.byte,
+            [C03,C04,C05,C06,C14|fasta.seek.ok_no_error_raised] r is Ok ==> final(self).buf_reader.errs() == old(self).buf_reader.errs(),
             [C09|fasta.seek.capacity] final(self).buf_reader.cap() == old(self).buf_reader.cap(),
             [C01,C03,C14,C17|fasta.seek.err] r matches Err(e) ==> (e matches Error::Io(x) && final(self).buf_reader.errs() == old(self).buf_reader.errs().push(x)),
 //@at depth=2 kw=return nth=0 expect="return Ok\(\(\)\);" unique=1
@@ -999,7 +999,7 @@ pub mod fasta {
         ensures
             [C20,C13|fasta.SeqLines.next.frame] final(self).data == old(self).data,
             [C20|fasta.SeqLines.next.exact_len] final(self).swf(),
-            [C12,C13,C20|fasta.SeqLines.next.item_is_trimmed_line] old(self).swf() && old(self).views().len() > 0 ==> (r matches Some(x) && x@ == old(self).views()[0]),
+            [C01,C10,C12,C13,C20|fasta.SeqLines.next.item_is_trimmed_line] old(self).swf() && old(self).views().len() > 0 ==> (r matches Some(x) && x@ == old(self).views()[0]),
 //@tail vx_r
         proof {
             assert(old(self).rem().len() > 0 ==> self.views() =~= old(self).views().drop_first());
@@ -1021,7 +1021,7 @@ pub mod fasta {
         ensures
             [C20,C13|fasta.SeqLines.next_back.frame] final(self).data == old(self).data,
             [C20|fasta.SeqLines.next_back.exact_len] final(self).swf(),
-            [C12,C13,C20|fasta.SeqLines.next_back.item_is_trimmed_line] old(self).swf() && old(self).views().len() > 0 ==> (r matches Some(x) && x@ == old(self).views().last()),
+            [C01,C10,C12,C13,C20|fasta.SeqLines.next_back.item_is_trimmed_line] old(self).swf() && old(self).views().len() > 0 ==> (r matches Some(x) && x@ == old(self).views().last()),
 //@body_start
         proof {
             assert(self.rem().len() > 0 ==> *self.rem()[self.rem().len() - 1].0 + 1 <= *self.rem()[self.rem().len() - 1].1 <= self.data@.len());
@@ -1748,7 +1748,7 @@ trait RecordD {
                             s0 < old(self).f().len() && old(self).f()[s0] != 62u8 && found == old(self).f()[s0] && line == true_line(old(self).f(), s0) })),
             [C14|fasta.read_set.source_errors_are_not_swallowed] (r is None || r matches Some(Ok(_))) ==> final(self).buf_reader.errs() == old(self).buf_reader.errs(),
             [C09|fasta.read_set.capacity_monotone] final(self).buf_reader.cap() >= old(self).buf_reader.cap(),
-            [C09|fasta.read_set.plain_sets_grow_only_when_a_record_does_not_fit] n_records is None && old(self).clean()
+            [C03,C09|fasta.read_set.plain_sets_grow_only_when_a_record_does_not_fit] n_records is None && old(self).clean()
                 && final(self).buf_reader.cap() > old(self).buf_reader.cap() ==>
                 exists|j: int| 0 <= j && #[trigger] fa_nofit(old(self).f(), fa_start(old(self).f(), old(self).cursor(), j), old(self).buf_reader.cap() as int),
 //@body_start
